@@ -51,7 +51,9 @@ type cmpKey struct {
 }
 
 // lexComparator recognises `func(i, j) bool` comparators of the lexicographic form
-//   if k1(i) == k1(j) { if k2(i) == k2(j) {…}; return k2(i) op k2(j) }; return k1(i) op k1(j)
+//
+//	if k1(i) == k1(j) { if k2(i) == k2(j) {…}; return k2(i) op k2(j) }; return k1(i) op k1(j)
+//
 // and returns the ordered key list; ok=false when a return is not a comparison of the
 // same field path of element i (left) and element j (right), or when a return is not
 // guarded by equality of all earlier keys.
